@@ -1395,12 +1395,7 @@ Proof.
 Qed.
 
 (* ---- lifted to messages -------------------------------------------------------------- *)
-Fixpoint typed_obj (ds : list prop) (fvs : list fvalue) : bool :=
-  match ds, fvs with
-  | [], [] => true
-  | d :: r, v :: s => fvalue_typed d v && typed_obj r s
-  | _, _ => false
-  end.
+(* typed_obj: model/Validate.v *)
 
 Lemma vworst_accept a b : vworst a b = VAccept <-> a = VAccept /\ b = VAccept.
 Proof. destruct a as [| |[|]], b as [| |[|]]; cbn; split; try intros [? ?]; try congruence; auto. Qed.
